@@ -396,8 +396,16 @@ def run(F, rep, tier):
         rep.ok('R6.5', 'PartialEq arms', sorted(combos))
     else:
         rep.viol('R6.5', eq + '|arms', 'PartialEq for NInt lacks a representation combination: %s' % sorted(combos), eb.loc(0))
-    mixed_calls = [c for c in eb.calls if c.target.endswith('::to_i64')]
-    if len(mixed_calls) >= 2 or any(c.target.endswith('to_bigint') for c in eb.calls):
+    mixed_ok = True
+    for i_, a_ in enumerate(em['arms']):
+        p_ = strip_ref(a_['pat'])
+        if p_.get('k') == 'tuple' and tuple(x.rsplit('::', 1)[-1] for x in pat_paths(p_)) in (('Small', 'Big'), ('Big', 'Small')):
+            reg_ = arm_region(F, eb, em, i_)
+            conv = [c for c in eb.calls_in(reg_) if c.target.endswith('::to_i64') or c.target.endswith('to_bigint')]
+            conv += [c for cl in F.closures_of(eq) for c in F.body(cl).calls if c.target.endswith('::to_i64') or c.target.endswith('to_bigint')]
+            if not conv:
+                mixed_ok = False
+    if mixed_ok:
         rep.ok('R6.5', 'PartialEq mixed arms', 'exact conversion (to_i64/to_bigint) before comparing')
     else:
         rep.viol('R6.5', eq + '|mixed', 'mixed-representation equality does not convert exactly', eb.loc(0))
@@ -561,10 +569,23 @@ def run(F, rep, tier):
                     if str(ty).startswith('i'):
                         nrem += 1
                         perr.setdefault(fk, []).append(b_.loc(bb))
+    paths6 = {C6.fn_key(p_): p_ for p_ in F.bodies_raw if '::promoted' not in p_}
+    used6 = {}
+
+    def spare6(g):
+        gk = C6.fn_key(g)
+        e_ = [e for e in REM_TABLE if re.search(e[0], gk)]
+        if not e_:
+            return None
+        return e_[0][1] - len(perr.get(gk, [])) - used6.get(gk, 0)
     for fk, locs in sorted(perr.items()):
         ent = [e for e in REM_TABLE if re.search(e[0], fk)]
         if ent and len(locs) <= ent[0][1]:
             rep.ok('R6.8', '%s x%d' % (fk, len(locs)), 'reviewed: ' + ent[0][2])
+        elif not ent and fk in paths6 and C6.moved_from_reviewed(paths6[fk], len(locs), spare6):
+            for g in C6.moved_from_reviewed(paths6[fk], len(locs), spare6):
+                used6[C6.fn_key(g)] = used6.get(C6.fn_key(g), 0) + len(locs)
+            rep.ok('R6.8', '%s x%d (moved)' % (fk, len(locs)), 'helper reached only from reviewed functions that lost at least as many remainder sites')
         else:
             rep.viol('R6.8', '%s|truncating-rem' % fk, '%s uses the truncating remainder %d time(s) (%d reviewed): for a negative dividend the result is negative or zero, so tests like `x %% 2 == 1` and digit extraction are wrong exactly on negative numbers; the library\'s modulo is mod_floor' % (fk, len(locs), ent[0][1] if ent else 0), locs[-1])
     rep.floor('R6.8', 'truncating remainder sites outside the operator layers', nrem, 8)
